@@ -252,4 +252,19 @@ theorem startCells_cellAt (o : Options) (recover : CU → CU) (bound : CU) (hb :
     unfold top; rw [h0, hM, h1]; simp [Nat.mod_one]
   omega
 
+/-- level discipline of `normalizeCovering` for ANY `recover` that keeps the level limits -/
+theorem normalizeCovering_levels_of_recover {cfg : Config} (h : CfgOK cfg) (recover : CU → CU) (bound : CU)
+    (hb : ∀ c ∈ bound, isValid c = true)
+    (hrec : ∀ cov, (∀ c ∈ cov, CellAt (Res cfg) c) → ∀ c ∈ recover cov, CellAt (Res cfg) c) :
+    ∀ c ∈ normalizeCovering cfg recover bound, CellAt (Res cfg) c := by
+  have hpre := preNormalize_res h bound hb
+  unfold normalizeCovering
+  simp only []
+  generalize preNormalize cfg bound = cov at *
+  split
+  · exact hpre
+  · split
+    · exact hrec cov hpre
+    · exact mergeLoop_res h _ _ hpre
+
 end S2Proofs.C05
